@@ -381,3 +381,183 @@ twin('C19-twin-cleanup-conditional', 'C19',
        "            _clean_up(tmp_result_dir)\n"
        "        if tmp_dir is not None:\n"
        "            _clean_up(tmp_dir)\n")])
+
+
+# ----------------------------------------------------------------------
+# C01
+# ----------------------------------------------------------------------
+mutant('C01-drop-reorder', 'C01', 'delete the re_order_blob call',
+       [(P+'type_assignment/election_runner.py',
+         "    result = re_order_blob(\n        results_blob=result,\n"
+         "        query_path=query_h5ad_path)\n\n", "")],
+       'R-MUST/reorder')
+mutant('C01-names-off-by-one', 'C01',
+       'names sliced with r0:r1-1',
+       [(P+'type_assignment/election.py',
+         "        name_chunk = query_cell_names[r0:r1]\n",
+         "        name_chunk = query_cell_names[r0:r1-1]\n")],
+       'R-SAMEVAL/ids-rows', 'upper-bound')
+mutant('C01-names-from-counter', 'C01',
+       'names sliced with a running counter instead of the chunk bounds',
+       [(P+'type_assignment/election.py',
+         "        name_chunk = query_cell_names[r0:r1]\n",
+         "        name_chunk = query_cell_names["
+         "chunk_index*chunk_size:(chunk_index+1)*chunk_size]\n")],
+       'R-SAMEVAL/ids-rows')
+mutant('C01-names-sorted', 'C01', 'the obs names are sorted',
+       [(P+'type_assignment/election.py',
+         "    query_cell_names = list(obs.index.values)\n",
+         "    query_cell_names = sorted(obs.index.values)\n")],
+       'R-SAMEVAL/ids-rows', 'names-from-obs')
+mutant('C01-swap-bounds', 'C01', 'r0 and r1 taken from swapped positions',
+       [(P+'type_assignment/election.py',
+         "        r0 = chunk[1]\n        r1 = chunk[2]\n",
+         "        r0 = chunk[2]\n        r1 = chunk[1]\n")],
+       'R-SAMEVAL/ids-rows')
+mutant('C01-worker-label-shift', 'C01',
+       'the worker labels row i with name i-1',
+       [(P+'type_assignment/election.py',
+         "        assignment[idx]['cell_id'] = query_cell_names[idx]\n",
+         "        assignment[idx]['cell_id'] = query_cell_names[idx-1]\n")],
+       'R-SAMEVAL/ids-rows', 'worker')
+mutant('C01-cursor-skips-row', 'C01',
+       'the CSR iterator advances its cursor one row too far',
+       [(P+'anndata_iterator/anndata_iterator.py',
+         "        chunk = self.get_chunk(r0=self.r0, r1=r1)\n"
+         "        self.r0 = r1\n        return chunk\n\n"
+         "    def get_chunk(self, r0, r1):\n"
+         "        \"\"\"\n        Returns the tuple (data[r0:r1, :], r0, "
+         "r1)\n        \"\"\"\n        with self.h5_handler as h5_handle:"
+         "\n            chunk = load_csr(",
+         "        chunk = self.get_chunk(r0=self.r0, r1=r1)\n"
+         "        self.r0 = r1 + 1\n        return chunk\n\n"
+         "    def get_chunk(self, r0, r1):\n"
+         "        \"\"\"\n        Returns the tuple (data[r0:r1, :], r0, "
+         "r1)\n        \"\"\"\n        with self.h5_handler as h5_handle:"
+         "\n            chunk = load_csr(")],
+       'R-SAMEVAL/chunk-protocol', 'advance')
+mutant('C01-dense-chunk-wrong-bounds', 'C01',
+       'the dense iterator reports bounds that are not the ones it cut',
+       [(P+'anndata_iterator/anndata_iterator.py',
+         "            chunk = h5_handle[self.data_key][r0:r1, :]\n"
+         "        return (chunk, r0, r1)\n\n    def get_batch",
+         "            chunk = h5_handle[self.data_key][r0:r1, :]\n"
+         "        return (chunk, r0, r0 + chunk.shape[0] + 1)\n\n"
+         "    def get_batch")],
+       'R-SAMEVAL/chunk-protocol', 'DenseArrayRowIterator.get_chunk')
+mutant('C01-writeback-enumerate', 'C01',
+       'results are written back by enumeration order, not by the '
+       'selecting index',
+       [(P+'type_assignment/election.py',
+         "            for i_cell, assigned_type, prob, corr, r_up in zip(\n"
+         "                            chosen_idx,\n",
+         "            for i_cell, assigned_type, prob, corr, r_up in zip(\n"
+         "                            range(len(assignment)),\n")],
+       'R-SAMEVAL/write-back')
+mutant('C01-rowsets-local-coordinates', 'C01',
+       'row sets for the next level stored in sub-chunk coordinates',
+       [(P+'type_assignment/election.py',
+         "                assigned_this = chosen_idx[assigned_this]\n",
+         "                assigned_this = np.where(assigned_this)[0]\n")],
+       'R-SAMEVAL/write-back', 'row-sets')
+mutant('C01-backfill-reduced-tree', 'C01',
+       'levels are back-filled with the reduced tree',
+       [(P+'cli/from_specified_markers.py',
+         "    result = tree_for_metadata.backfill_assignments(result)\n",
+         "    result = taxonomy_tree.backfill_assignments(result)\n")],
+       'R-PROV/tree-version', 'backfill')
+mutant('C01-no-backfill', 'C01', 'the back-fill call is removed',
+       [(P+'cli/from_specified_markers.py',
+         "    result = tree_for_metadata.backfill_assignments(result)\n",
+         "")],
+       'R-PROV/tree-version')
+mutant('C01-output-reduced-tree', 'C01',
+       'the reduced tree is embedded in the output',
+       [(P+'cli/from_specified_markers.py',
+         "    output[\"taxonomy_tree\"] = json.loads("
+         "tree_for_metadata.to_str())\n",
+         "    output[\"taxonomy_tree\"] = json.loads("
+         "taxonomy_tree.to_str(drop_cells=True))\n")],
+       'R-PROV/tree-version', "output['taxonomy_tree']")
+mutant('C01-backfill-alias', 'C01',
+       'the inferred record aliases the child record',
+       [(P+'taxonomy/taxonomy_tree.py',
+         "                new_data = copy.deepcopy(cell[child_level])\n",
+         "                new_data = cell[child_level]\n")],
+       'R-ALIAS/backfill')
+mutant('C01-backfill-flag-true', 'C01',
+       'inferred levels are flagged as directly assigned',
+       [(P+'taxonomy/taxonomy_tree.py',
+         "                new_data['directly_assigned'] = False\n",
+         "                new_data['directly_assigned'] = True\n")],
+       'R-CONST/backfill-flag')
+mutant('C01-backfill-keeps-runner-up', 'C01',
+       'inferred levels keep the runner-up fields',
+       [(P+'taxonomy/taxonomy_tree.py',
+         "                    if k.startswith('runner_up'):\n"
+         "                        new_data.pop(k)\n",
+         "                    if k.startswith('runner_up'):\n"
+         "                        pass\n")],
+       'R-CONST/backfill-runner-up')
+mutant('C01-none-level-key', 'C01',
+       'correlation back-fill iterates over [None]+hierarchy again (the '
+       'defect fixed by the F1 commit)',
+       [(P+'type_assignment/election.py',
+         "        for parent_level, child_level in zip(hierarchy[:-1], "
+         "hierarchy[1:]):\n",
+         "        for parent_level, child_level in zip(level_list[:-1], "
+         "level_list[1:]):\n")],
+       'R-GUARD/level-key')
+mutant('C01-reorder-wrong-file', 'C01',
+       're_order_blob is given the statistics file',
+       [(P+'type_assignment/election_runner.py',
+         "        query_path=query_h5ad_path)\n\n    return result",
+         "        query_path=precomputed_stats_path)\n\n    return result")],
+       'R-MUST/reorder')
+mutant('C01-reorder-keeps-input-order', 'C01',
+       're_order_blob iterates the blob instead of the obs index',
+       [(P+'utils/output_utils.py',
+         "    results_blob = list([\n"
+         "        results_blob[c] for c in cell_order])\n",
+         "    results_blob = list([\n"
+         "        results_blob[c] for c in results_blob])\n")],
+       'R-MUST/reorder/order-source')
+
+twin('C01-twin-unpack-chunk', 'C01',
+     'chunk unpacked as a tuple instead of by index',
+     [(P+'type_assignment/election.py',
+       "        r0 = chunk[1]\n        r1 = chunk[2]\n"
+       "        name_chunk = query_cell_names[r0:r1]\n\n"
+       "        data = chunk[0]\n",
+       "        (data, r0, r1) = chunk\n"
+       "        name_chunk = query_cell_names[r0:r1]\n")])
+twin('C01-twin-rename-result', 'C01',
+     'rename a local in the election runner',
+     [(P+'type_assignment/election_runner.py',
+       "    result = re_order_blob(\n        results_blob=result,\n"
+       "        query_path=query_h5ad_path)\n\n    return result",
+       "    ordered = re_order_blob(\n        results_blob=result,\n"
+       "        query_path=query_h5ad_path)\n\n    return ordered")])
+twin('C01-twin-backfill-dict-copy', 'C01',
+     'inferred record copied with dict(...) instead of deepcopy',
+     [(P+'taxonomy/taxonomy_tree.py',
+       "                new_data = copy.deepcopy(cell[child_level])\n",
+       "                new_data = dict(cell[child_level])\n")])
+twin('C01-twin-guarded-none-key', 'C01',
+     'a [None]+hierarchy loop whose record access is guarded',
+     [(P+'type_assignment/election.py',
+       "    # add aggregate_probability (the product of "
+       "bootstrapping_probability)\n",
+       "    for cell in result:\n"
+       "        for parent_level, child_level in zip(level_list[:-1], "
+       "level_list[1:]):\n"
+       "            if parent_level is not None:\n"
+       "                assert cell[parent_level] is not None\n"
+       "    # add aggregate_probability (the product of "
+       "bootstrapping_probability)\n")])
+twin('C01-twin-positional-reorder', 'C01',
+     're_order_blob called with positional arguments',
+     [(P+'type_assignment/election_runner.py',
+       "    result = re_order_blob(\n        results_blob=result,\n"
+       "        query_path=query_h5ad_path)\n",
+       "    result = re_order_blob(result, query_h5ad_path)\n")])
